@@ -130,7 +130,14 @@ pub unsafe extern "C" fn resolvo_string_from_bytes(
     len: usize,
 ) {
     unsafe {
-        let str = core::str::from_utf8(core::slice::from_raw_parts(bytes, len)).unwrap();
+        // An empty string may come with a null pointer (a default constructed
+        // `std::string_view`), which `from_raw_parts` does not accept.
+        let bytes = if len == 0 {
+            &[]
+        } else {
+            core::slice::from_raw_parts(bytes, len)
+        };
+        let str = core::str::from_utf8(bytes).unwrap();
         core::ptr::write(out, String::from(str));
     }
 }
